@@ -123,6 +123,12 @@ func (ex *Exec) call(st *State, in ssa.Instruction, c *ssa.CallCommon) (Value, b
 			}
 		}
 	}
+	if ta := callee.TypeArgs(); len(ta) > 0 {
+		// an instantiated generic callee: zero() in its contract is the zero value of the actual type argument
+		saved := ex.zeroT
+		ex.zeroT = ta[0]
+		defer func() { ex.zeroT = saved }()
+	}
 	return ex.applyContract(st, in, ord, name, spec, cf, pnames, args, sig)
 }
 
